@@ -215,7 +215,9 @@ def collect(ck, n):
         out += rr["results"]
     crashed = [r for r in out if "crash" in r]
     if crashed:
-        ck.broke("impl-runner-crash", {"gates": crashed[0]["gates"], "crash": crashed[0]["crash"]})
+        c0 = crashed[0]
+        ck.runner_crash({"backend": c0["backend"], "verdict": c0.get("verdict"), "nested": c0.get("nested"),
+                         "gates": c0["gates"]}, c0["crash"])
     return [r for r in out if "crash" not in r]
 
 
@@ -277,6 +279,9 @@ def replay(ck: Check, obj) -> int:
     rp = obj.get("replay") or obj["no_longer_checks"][0]["detail"]
     r = ck.run_impl("impl_fac.py", [{"cases": [{"verdict": rp["verdict"], "nested": rp["nested"], "gates": rp["gates"],
                                                  "backend": rp["backend"]}]}])[0]["results"][0]
+    if "crash" in r:
+        print(r["crash"])
+        return 1
     for s in r.get("steps", []):
         print(s)
     bad = oracle(r)
